@@ -29,6 +29,15 @@ def group_comp_family(seed, n, budget):
     rnd = random.Random(seed)
     fam = D.alt_family(seed, n // 2, maxlen=3, budget=budget) + D.adj_family(seed + 1, n // 4, maxlen=3, budget=budget) + \
         D.acmd_family(seed + 2, n - n // 2 - n // 4, maxlen=3, budget=budget)
+    # a finished block of named members (the last one a completed argument) followed by the beginning of an outer name
+    for i, wrap in enumerate(["many", "one", "opt"]):
+        g = D.adjf("g0", wrap, D.rf("h0", "one", "--rect"), D.ar("w", "one", "int", "--ww"), D.ar("h", "one", "str", "--hh"))
+        if i == 2:
+            g["members"].append(D.sw("q", "--sq"))
+        d = D.mkdef(f"adjfin{seed}_{i}", D.level([D.sw("o1", "-v", "--verbose"), g] + ([D.ar("o2", "opt", "str", "--out")] if i else []), D.NOTAIL),
+                    maxlen=4, extras=(), spells=("eq",), words=("1",))
+        g["members"][1]["completer"] = ["H10", "H20"]
+        fam.append(d)
     for k, d in enumerate(fam):
         d["alpha"]["clusters"] = False
         d["alpha"]["spells"] = [x for x in d["alpha"]["spells"] if x != "glued"] or ["sep"]
